@@ -980,6 +980,12 @@ func mkHandlers(r *hk.Rng, mode, nthr int) []hdl {
 			hdl{chain: []lg.Step{withStep(1)}, during: -1, apiAt: r.Intn(2)},
 			hdl{chain: []lg.Step{{Group: "g"}}, during: -1, apiAt: r.Intn(2)},
 			hdl{chain: []lg.Step{withStep(1), {Group: "g"}, withStep(2)}, during: -1, apiAt: r.Intn(4)})
+		// With blocks of >= 16 KiB and >= 64 KiB (the pre-rendered attributes alone exceed the pooled-buffer limit)
+		for _, n := range []int{16<<10 + r.Intn(2000), 64<<10 + r.Intn(5000)} {
+			n := n
+			big := lg.Step{Attrs: func() []slog.Attr { return []slog.Attr{slog.String("blk", pad(n)), slog.Int("i", n)} }}
+			hs = append(hs, hdl{chain: []lg.Step{big}, during: -1, apiAt: r.Intn(2)})
+		}
 	case 2:
 		hs = append(hs, hdl{chain: []lg.Step{withStep(1)}, during: -1, apiAt: r.Intn(2)}) // a shared parent with attributes
 		for t := 0; t < nthr; t++ {
@@ -1096,7 +1102,7 @@ func run(e *hk.Env) error {
 					if i%3 == 0 {
 						sz = big
 					}
-					newRec(sc, 0, r.Intn(4), levels[1+r.Intn(3)], r.Intn(4), sz, r.Intn(3), false)
+					newRec(sc, 0, r.Intn(len(sc.handlers)), levels[1+r.Intn(3)], r.Intn(4), sz, r.Intn(3), false)
 				}
 				do(sc)
 			}
